@@ -378,6 +378,22 @@ func checkC19(c *mc.Ctx) {
 			}
 		}
 	}
+	// a PID joined in the middle of a very long unit: 300 packets without a unit start (consecutive counters), then a
+	// unit that starts - the start-less run is one unit for a PacketsParser, however long it is
+	{
+		var ps []*ref.Pkt
+		for i := 0; i < 300; i++ {
+			pl := make([]byte, 184)
+			for k := range pl {
+				pl[k] = byte(0x20 + (i+k*3)%0xd0)
+			}
+			ps = append(ps, &ref.Pkt{PID: 0x100, HasPL: true, CC: uint8(i & 0xf), Payload: pl})
+		}
+		cc := uint8(300 & 0xf)
+		ps = append(ps, Packetize(PESUnit(0x100, 0xe0, pesPayload(161, 184*2-14-5, c.Seed), 9, false), nil, &cc, false)...)
+		st := &Stream{Name: "long-start-less-run", Pkts: ps, Bytes: EncodePkts(ps)}
+		c19Parsers(c, st, ps)
+	}
 	// long runs of skipped packets: every run length 0..110 at four start positions in a stream of 120 single-packet
 	// units on two PIDs - however many packets are skipped in a row, the next one that is not skipped is returned
 	{
